@@ -68,7 +68,7 @@ class ActionStateMixin(metaclass=ABCMeta):
 
     def __eq__(self, other):
         if isinstance(other, ActionStateMixin):
-            return self.on_entry == other.on_exit and self.on_exit == other.on_exit
+            return self.on_entry == other.on_entry and self.on_exit == other.on_exit
         else:
             return NotImplemented
 
